@@ -460,3 +460,14 @@ fn sieve_block(s: &SieveQS, st: &mut Sieve, roots: [&[u32]; 2], backward: bool) 
         s.rels.write().unwrap().add(rel, pq);
     }
 }
+
+/// Verification hooks (only with `--cfg yamaquasi_verif`): the private block count.
+#[cfg(yamaquasi_verif)]
+pub mod verif_hooks {
+    use super::*;
+
+    /// `SieveQS::nblocks` of a sieve context built for `n` over the factor base `fbase`.
+    pub fn vh_nblocks(n: &Uint, fbase: &FBase) -> usize {
+        SieveQS::new(*n, fbase, 0, false).nblocks()
+    }
+}
